@@ -20,7 +20,7 @@ use std::time::Duration;
 pub static INFO: PropInfo = PropInfo {
     id: "C09",
     level: "exploration",
-    rule: "four kinds of evaluation. (A) simulated sessions with small channel budgets (8-64 KB) and long lossy histories, submissions kept 'within budget' (accepted by can_send_message AND bytes submitted-but-not-yet-obtained <= receive budget); the monitor reads, after every arrival / drain / tick, the accounted memory of every channel (send side: public API; receive side: hook) and asserts 0 <= m <= max, that unreliable send memory is back after every flush, that after a full drain an unreliable receive channel accounts at most the fragments that saw a slice less than 3 s before the receiver's last update, that no endpoint disconnects with ReliableChannelMaxMemoryReached, and at a quiescent point (everything obtained and acknowledged, >= 3 s idle, drained) that every channel offers its whole budget and accounts 0 received bytes. (B) heap trend: a lean client/server pair runs 24-48 identical lossy+duplicating cycles; the live heap (counting global allocator) is recorded at the drained quiescent point after each cycle and must not keep growing (growth in both the 2nd and the 3rd third above a constant slack). (C) exact fill: a client/server pair with one budget (1 byte .. 64 KB, multiples and non-multiples of the 1200-byte slice) for both reliable kinds and both roles; without consulting can_send_message the driver submits messages (0 bytes .. several slices; whole slices in half of the runs, any length in the other half) whose lengths add up to exactly the budget, judged by a shadow (sum of the lengths of the messages whose ids are still unacknowledged, hook); at every step can_send_message must accept what the shadow says fits, channel_available_memory must equal budget - shadow, no endpoint may disconnect with ReliableChannelMaxMemoryReached, and after the acknowledgements the whole budget must be back; repeated 3 times per run over clean or lossy links. (D) stale fragment: one slice of a 2-6 slice unreliable message arrives, copies of that packet arrive 1-3 more times within the next 2.9 s, and at the first update after 3 s + one tick the receive side must account 0 bytes for it (copies are not progress). Non-trivial = faults occurred AND at least one duplicate of an already consumed message arrived AND the quiescent point was reached; distinct = distinct event-log fingerprints.",
+    rule: "five kinds of evaluation. (A) simulated sessions with small channel budgets (8-64 KB) and long lossy histories, submissions kept 'within budget' (accepted by can_send_message AND bytes submitted-but-not-yet-obtained <= receive budget); the monitor reads, after every arrival / drain / tick, the accounted memory of every channel (send side: public API; receive side: hook) and asserts 0 <= m <= max, that unreliable send memory is back after every flush, that after a full drain an unreliable receive channel accounts at most the fragments that saw a slice less than 3 s before the receiver's last update, that no endpoint disconnects with ReliableChannelMaxMemoryReached, and at a quiescent point (everything obtained and acknowledged, >= 3 s idle, drained) that every channel offers its whole budget and accounts 0 received bytes. (B) heap trend: a lean client/server pair runs 24-48 identical lossy+duplicating cycles; the live heap (counting global allocator) is recorded at the drained quiescent point after each cycle and must not keep growing (growth in both the 2nd and the 3rd third above a constant slack). (C) exact fill: a client/server pair with one budget (1 byte .. 64 KB, multiples and non-multiples of the 1200-byte slice) for both reliable kinds and both roles; without consulting can_send_message the driver submits messages (0 bytes .. several slices; whole slices in half of the runs, any length in the other half) whose lengths add up to exactly the budget, judged by a shadow (sum of the lengths of the messages whose ids are still unacknowledged, hook); at every step can_send_message must accept what the shadow says fits, channel_available_memory must equal budget - shadow, no endpoint may disconnect with ReliableChannelMaxMemoryReached, and after the acknowledgements the whole budget must be back; repeated 3 times per run over clean or lossy links. (D) stale fragment: one slice of a 2-6 slice unreliable message arrives, copies of that packet arrive 1-3 more times within the next 2.9 s, and at the first update after 3 s + one tick the receive side must account 0 bytes for it (copies are not progress). (E) long gap: one sliced reliable message keeps losing a slice while a sliced message and 20..1330 further messages are received (and, unordered, consumed) behind it - more than 1024 of them in half of the runs; then late duplicates of recorded packets arrive (a slice of the consumed sliced message first), the gap closes and everything is drained and acknowledged: the receive side must account 0 bytes, the send side offer the whole budget, nobody be disconnected for memory. A tenth of the simulated sessions of (A) are built with ConnectionConfig::default(). Non-trivial = faults occurred AND at least one duplicate of an already consumed message arrived AND the quiescent point was reached; distinct = distinct event-log fingerprints.",
     assumptions: &[
         "'within budget' window as defined in DESIGN C09, counted in plain bytes since fix F26 (DESIGN 8.3)",
         "heap trend compares successive quiescent points of a steady workload with a 32 KB slack (containers keep capacity)",
